@@ -208,3 +208,15 @@ for _pid, (_t, _x) in _ADD5.items():
     if _pid in CLAIMED:
         t0, x0, r0 = CLAIMED[_pid]
         CLAIMED[_pid] = ((t0 + '; ' + _t) if _t else t0, (x0 + ' ' + _x).strip(), r0)
+
+# round 14
+_ADD6 = {
+    'C10': ('default-unit scenario of Atoms.model through a caller-supplied dictionary', ''),
+    'C16': ('refusals of float()/int() on concrete strings raised like Python inside the interpreted parser', ''),
+    'C14': ('centering tables of tools/miller in exact rationals (rule of C04/C16) on the same sources', 'Also decided: the conventional-to-primitive tables the surface basis goes through are the inverses of their partners for every conventional_setting.'),
+    'C20': ('RATE-TYPE structural rule on the integrators', 'Also decided: nothing inside euler/rungekutta is cast to the element type of the coordinates passed in.'),
+}
+for _pid, (_t, _x) in _ADD6.items():
+    if _pid in CLAIMED:
+        t0, x0, r0 = CLAIMED[_pid]
+        CLAIMED[_pid] = ((t0 + '; ' + _t) if _t else t0, (x0 + ' ' + _x).strip(), r0)
